@@ -78,6 +78,9 @@ impl Group for C10Sim {
             c("vh 0 g 10|vh 0 g 0|rv 0|scp 0 11|scp 0 0|cpr 0 g|scp1 0 11|shx 0 b|shx 0 g"),
             // initial commitment: activation before validation, refused validation, then the regular flow
             c("world fresh|act|vh 0 b 0|act|vh1 0 g 0|act|act|vh 0 g 1|rv 0"),
+            // the channel map fills up: creation (also of an existing stub) is refused until one is forgotten
+            c("newch 1|newch 2|newch 3|newch 4|newch 2|forget 2|newch 4|newch 5|restart|newch 5|forget 1|newch 5"),
+            c("world perm|newch 2|newch 3|newch 5|newch 4|newch 3|forget 3|newch 4"),
             // a stale counterparty commitment number with changed HTLCs is refused late
             c("scp 0 0|scp 0 1|scp -1 2|scp -1 5|cpr 0 g|scp -2 1"),
             // re-signing the funding transaction: accepted, then refused at the signing step
